@@ -4,4 +4,6 @@ CONSTANTS
   Redispatch = TRUE
   StartStates = {"VIRGIN"}
   Dirs = {"down"}
+  Lst2Kinds = {"none"}
+  WithLoad = FALSE
 CHECK_DEADLOCK FALSE
